@@ -201,7 +201,14 @@ func (fb *Builder) OptionsFor(parent protoreflect.Descriptor) ([]*OptionDefiniti
 		options = append(options, built)
 	}
 
-	sort.Sort(optionsByLocation(options))
+	// Range (above) visits extension fields in Go map order. Bring the
+	// options into a canonical order first, then sort stably, so that options
+	// which compare equal by location / index (extensions of different files
+	// with the same index) always come out in the same order.
+	sort.Slice(options, func(i, j int) bool {
+		return options[i].Desc.FullName() < options[j].Desc.FullName()
+	})
+	sort.Stable(optionsByLocation(options))
 	return options, nil
 
 }
